@@ -346,7 +346,7 @@ def part_catalog(payload):
         ops = []
 
         def wrap(x, role, shared="B" in fl):
-            u = {"A": payload["unitA"], "B": payload["unitA"] if shared else "s", "G": "rad", "I": "1/m"}[role]
+            u = {"A": payload["unitA"], "A2": payload["unitA"], "B": payload["unitA"] if shared else "s", "G": "rad", "I": "1/m"}[role]
             o = Operand(x, u, "float64")
             ops.append(o)
             return o.q
